@@ -11,6 +11,7 @@ import EvalexprVerif.Proofs.ParseSeq
 import EvalexprVerif.Proofs.AgreeBuiltin
 import EvalexprVerif.Proofs.AgreeContext
 import EvalexprVerif.Proofs.AgreeToken
+import EvalexprVerif.Proofs.AgreeFnOperator
 
 namespace Evalexpr.Spec.C09
 open Evalexpr Evalexpr.Spec
@@ -77,5 +78,28 @@ theorem C09_form_tuple (a b : Str) :
     tokensToOperatorTree [.lBrace, .identifier a, .comma, .identifier b, .rBrace] =
       .ok ⟨.rootNode, [⟨.rootNode, [⟨.tuple, [⟨.rootNode, [⟨.varRead a, []⟩]⟩, ⟨.rootNode, [⟨.varRead b, []⟩]⟩]⟩]⟩]⟩ :=
   Evalexpr.Spec.C05_tree [[some (.group [[some (.expr (.var a)), some (.expr (.var b))]])]] rfl
+
+/-! ### about the code as translated on this run
+`Gen.Operator.eval (.fn id) [arg]` is the `FunctionIdentifier` arm of `Operator::eval` (src/operator/mod.rs) rendered by
+`translate_fn.py`, calling the rendered `builtin_function`. -/
+
+/-- a function the context defines takes precedence (unless it answers with the unknown-function error itself: K2) -/
+theorem C09_resolution_partial_generated (id : Str) (arg : Value) (s : St) (f : UserFn)
+    (hf : s.ctx.userFn id = some f) (hne : ∀ x, f arg ≠ .error (.functionIdentifierNotFound x)) :
+    Gen.Operator.eval (.fn id) [arg] s = (f arg, { s with log := s.log ++ [(id, arg)] }) := by
+  rw [AgreeFn.fn_Operator_eval_agree]
+  show callFunction id arg s = _
+  exact C09_resolution_partial id arg s f hf hne
+
+/-- builtins are consulted only if the context defines no such function and has not disabled them -/
+theorem C09_fallback_generated (id : Str) (arg : Value) (s : St) (hf : s.ctx.userFn id = none) :
+    Gen.Operator.eval (.fn id) [arg] s =
+      (if s.ctx.builtinsDisabled then .error (.functionIdentifierNotFound id)
+       else match builtinFunction id with
+         | some b => b.call arg
+         | none => .error (.functionIdentifierNotFound id), s) := by
+  rw [AgreeFn.fn_Operator_eval_agree]
+  show callFunction id arg s = _
+  exact C09_fallback id arg s hf
 
 end Evalexpr.Spec.C09
